@@ -290,9 +290,39 @@ func runC08(seed uint64, tier, dir, replay string) error {
 		base := g.validPacket(dec)
 		var inputs [][]byte
 		var kinds []string
-		for k := 0; k <= len(base) && k <= 120; k++ {
-			inputs = append(inputs, base[:k])
-			kinds = append(kinds, "truncation")
+		// three valid packets of different shapes, each cut at every offset; for Ethernet one
+		// of them is tagged and one is not
+		bases := [][]byte{base, g.validPacket(dec), g.validPacket(dec)}
+		if dec == "eth" {
+			for tries := 0; tries < 50 && !(len(bases[1]) > 13 && bases[1][12] == 0x81 && bases[1][13] == 0); tries++ {
+				bases[1] = g.validPacket(dec)
+			}
+			for tries := 0; tries < 50 && len(bases[2]) > 13 && bases[2][12] == 0x81 && bases[2][13] == 0; tries++ {
+				bases[2] = g.validPacket(dec)
+			}
+		}
+		if dec == "ip4" { // one of them with options
+			for tries := 0; tries < 50 && !(len(bases[1]) > 0 && bases[1][0]&15 > 5); tries++ {
+				bases[1] = g.validPacket(dec)
+			}
+		}
+		for _, bb := range bases {
+			for k := 0; k <= len(bb) && k <= 120; k++ {
+				inputs = append(inputs, bb[:k])
+				kinds = append(kinds, "truncation")
+			}
+		}
+		// every 16-bit field in the first 12 bytes at every small value (a length smaller than the
+		// header it sits in, between two header sizes, just beyond the data)
+		for _, bb := range bases[:2] {
+			for pos := 0; pos+1 < len(bb) && pos < 12; pos += 2 {
+				for v := 0; v <= 72; v++ {
+					c := append([]byte{}, bb...)
+					c[pos], c[pos+1] = 0, byte(v)
+					inputs = append(inputs, c)
+					kinds = append(kinds, "small-length-sweep")
+				}
+			}
 		}
 		// every length-like byte position x boundary values on the first bytes
 		for i := 0; i < len(base) && i < 24; i++ {
@@ -389,7 +419,7 @@ func runC08(seed uint64, tier, dir, replay string) error {
 		o.Meta["direct_violations"] = direct
 	}
 	o.Meta["outcomes"] = outcomes
-	o.Meta["rule"] = "per decoder (Ethernet+VLAN, ARP, IPv4, IPv6, ICMP, UDP, TCP, hop-by-hop, routing, fragment, VLAN, IPv6 option, IGMPv1/2, IGMPv3 query / group record / report, DHCP, DHCP options, LLDP and its three TLVs): truncation of a valid packet at every offset (<=120), every one of the first 24 bytes set to 0/1/0xfe/0xff, random valid packets and structure-aware mutations (truncate, boundary bytes, flips, extension); Ethernet/IPv6 packets whose extension headers carry Hdr Ext Len 0/1/31/254/255 and are long enough to hold them; IGMPv3 source / aux counts at the values where 16-bit size arithmetic wraps, a membership report holding a group record of exactly 65536 bytes; for the kinds not reached from Ethernet (802.1Q tag, IPv6 option, IGMP, DHCP, LLDP) the valid packets are encodings of generated well-formed values and the model's re-encoding and reported size of every decoded value are compared with the implementation's; each decode runs in a worker subprocess under a 3 s wall-clock limit, a 1 GiB heap limit and an allocation budget of 512 bytes per input byte + 256 KiB; distinct by decoder x input kind x outcome x size bucket"
+	o.Meta["rule"] = "per decoder (Ethernet+VLAN, ARP, IPv4, IPv6, ICMP, UDP, TCP, hop-by-hop, routing, fragment, VLAN, IPv6 option, IGMPv1/2, IGMPv3 query / group record / report, DHCP, DHCP options, LLDP and its three TLVs): truncation of three valid packets of different shapes (Ethernet: tagged and untagged) at every offset (<=120), every 16-bit field of the first 12 bytes at every value 0..72, every one of the first 24 bytes set to 0/1/0xfe/0xff, random valid packets and structure-aware mutations (truncate, boundary bytes, flips, extension); Ethernet/IPv6 packets whose extension headers carry Hdr Ext Len 0/1/31/254/255 and are long enough to hold them; IGMPv3 source / aux counts at the values where 16-bit size arithmetic wraps, a membership report holding a group record of exactly 65536 bytes; for the kinds not reached from Ethernet (802.1Q tag, IPv6 option, IGMP, DHCP, LLDP) the valid packets are encodings of generated well-formed values and the model's re-encoding and reported size of every decoded value are compared with the implementation's; each decode runs in a worker subprocess under a 3 s wall-clock limit, a 1 GiB heap limit and an allocation budget of 512 bytes per input byte + 256 KiB; distinct by decoder x input kind x outcome x size bucket"
 	return o.Close()
 }
 
